@@ -1358,6 +1358,7 @@ fn main() {
     let sock = socketpair();
     if let Some(f) = a.get("cases") {
         for line in std::fs::read_to_string(f).unwrap().lines() {
+            fbrh::util::crumb(line);
             if !line.trim().is_empty() {
                 replay_line(line, sock, &mut out);
             }
